@@ -17,6 +17,9 @@
                                  have fired before the caller's event at the same instant (at least once)
      end       the same at the final clock value
      time      marker times never decrease.
+     reconfig  TSetTimeout s v t : from now on ENTERING s starts a period of v (none if v = 0); a stay that is
+                                   under way keeps the deadline it was given on entry, and still loses it on
+                                   exit whatever the attribute says then.
    An internal transition produces no marker, hence cannot restart or stop a period; the state is per
    model, hence timers of different models are independent.  Definitions only. *)
 From Coq Require Import List Arith Bool.
@@ -26,38 +29,41 @@ Import ListNotations.
 Record ck : Type := mkCk {
   ck_ok : bool;
   ck_last : nat;
-  ck_open : tmodel -> option (tstate * option nat)
+  ck_open : tmodel -> option (tstate * option nat);
+  ck_tout : tstate -> nat        (* the timeout attribute of every state as last assigned *)
 }.
-Definition ck_init (s0 : tstate) : ck := mkCk true 0 (fun _ => Some (s0, None)).
+Definition ck_init (c : tcfg) (s0 : tstate) : ck := mkCk true 0 (fun _ => Some (s0, None)) (timeout_of c).
 
 Definition none_overdue (nm : nat) (k : ck) (t : nat) : bool :=
   forallb (fun m => match ck_open k m with Some (_, Some dl) => Nat.ltb t dl | _ => true end) (seq 0 nm).
 
-Definition period (c : tcfg) (s : tstate) (t : nat) : option nat :=
-  if Nat.ltb 0 (timeout_of c s) then Some (t + timeout_of c s) else None.
+Definition period (tout : tstate -> nat) (s : tstate) (t : nat) : option nat :=
+  if Nat.ltb 0 (tout s) then Some (t + tout s) else None.
 
 Definition ck_step (c : tcfg) (nm : nat) (k : ck) (it : titem) : ck :=
   match it with
   | TEntered m s t =>
       mkCk (ck_ok k && Nat.leb (ck_last k) t &&
             match ck_open k m with None => true | Some _ => false end)
-           t (upd (ck_open k) m (Some (s, period c s t)))
+           t (upd (ck_open k) m (Some (s, period (ck_tout k) s t))) (ck_tout k)
   | TFired m s t =>
       mkCk (ck_ok k && Nat.leb (ck_last k) t &&
             match ck_open k m with
             | Some (s', Some dl) => Nat.eqb s' s && Nat.eqb t dl
             | _ => false
             end)
-           t (upd (ck_open k) m (Some (s, None)))
+           t (upd (ck_open k) m (Some (s, None))) (ck_tout k)
   | TExited m s t =>
       mkCk (ck_ok k && Nat.leb (ck_last k) t &&
             match ck_open k m with
             | Some (s', a) => Nat.eqb s' s && match a with Some dl => Nat.leb t dl | None => true end
             | None => false
             end)
-           t (upd (ck_open k) m None)
+           t (upd (ck_open k) m None) (ck_tout k)
   | TUser _ _ t =>
-      mkCk (ck_ok k && Nat.leb (ck_last k) t && none_overdue nm k t) t (ck_open k)
+      mkCk (ck_ok k && Nat.leb (ck_last k) t && none_overdue nm k t) t (ck_open k) (ck_tout k)
+  | TSetTimeout s v t =>
+      mkCk (ck_ok k && Nat.leb (ck_last k) t) t (ck_open k) (upd (ck_tout k) s v)
   | _ => k
   end.
 
@@ -68,7 +74,7 @@ Definition ck_end (nm : nat) (k : ck) (clock : nat) : bool :=
 
 (* the trace tr of a machine with nm models that all start in s0, observed until [clock] *)
 Definition spec_C17 (c : tcfg) (nm : nat) (s0 : tstate) (tr : list titem) (clock : nat) : bool :=
-  ck_end nm (ck_run c nm (ck_init s0) tr) clock.
+  ck_end nm (ck_run c nm (ck_init c s0) tr) clock.
 
 (* ----------------------------------------------------------------- the handler's contract
    the items of a trace that a timeout handler produces itself (as opposed to the transitions its
